@@ -4,7 +4,9 @@ import (
 	"context"
 	"errors"
 	"fmt"
+	"runtime"
 	"sort"
+	"strings"
 	"sync"
 	"sync/atomic"
 	"time"
@@ -502,7 +504,94 @@ func c13Subjects() []c13Subject {
 		}
 		return out, func() {}
 	}})
+	// ---- first use --------------------------------------------------------------
+	// Lazily initialised state is written by whichever call comes first: a
+	// fresh (zero-valued, or newly wrapped) object per step, first touched by
+	// several goroutines at once. The n-th execution of a Limit wrapper and the
+	// single execution of a Once wrapper also happen once per object, so these
+	// get a fresh wrapper per step and a function that takes a moment.
+	subs = append(subs, c13Subject{"first-use", func() ([]c13Driver, func()) {
+		const slots = 1600
+		type slot struct {
+			arrivals atomic.Int32
+			wg       fun.WaitGroup
+			ec       erc.Collector
+			m        adt.Map[int, int]
+			once     adt.Once[int]
+			set      *dt.Set[int]
+			st       [5]guarded // one per wrapper: wrappers exclude their own callers only
+			futLim   fun.Future[int]
+			wrkLim   fun.Worker
+			prdLim   fun.Producer[int]
+			prdOnce  fun.Producer[int]
+			wrkOnce  fun.Worker
+		}
+		ss := make([]*slot, slots)
+		for k := range ss {
+			sl := &slot{set: &dt.Set[int]{}}
+			sl.set.Synchronize()
+			slow := func(k int) int { v := guardedTouch(&sl.st[k]); kit.Yields(2); return v }
+			sl.futLim = fun.Future[int](func() int { return slow(0) }).Limit(2)
+			sl.wrkLim = fun.Worker(func(context.Context) error { slow(1); return nil }).Limit(2)
+			sl.prdLim = fun.Producer[int](func(context.Context) (int, error) { return slow(2), nil }).Limit(2)
+			sl.prdOnce = fun.Producer[int](func(context.Context) (int, error) { return slow(3), nil }).Once()
+			sl.wrkOnce = fun.Worker(func(context.Context) error { slow(4); return nil }).Once()
+			ss[k] = sl
+		}
+		// meet lets (at least) two goroutines reach step i together; the
+		// atomic orders only what came before it
+		meet := func(i int) *slot {
+			sl := ss[i%slots]
+			sl.arrivals.Add(1)
+			for k := 0; k < 400 && sl.arrivals.Load() < 2; k++ {
+				if k%40 == 39 {
+					runtime.Gosched()
+				}
+			}
+			return sl
+		}
+		return []c13Driver{
+			{"wg: first Add+Done", func(g, i int) { sl := meet(i); sl.wg.Add(1); sl.wg.Done() }},
+			{"wg: first Wait", func(g, i int) { sl := meet(i); c, cc := cancelSoon(i); sl.wg.Wait(c); cc() }},
+			{"wg: first Launch", func(g, i int) { sl := meet(i); sl.wg.Launch(bg, func(context.Context) {}) }},
+			{"wg: first Num/IsDone", func(g, i int) { sl := meet(i); _ = sl.wg.Num(); _ = sl.wg.IsDone() }},
+			{"collector: first Add", func(g, i int) { sl := meet(i); sl.ec.Add(errors.New("x")) }},
+			{"collector: first Resolve/Len", func(g, i int) { sl := meet(i); _ = sl.ec.Resolve(); _ = sl.ec.Len(); _ = sl.ec.HasErrors() }},
+			{"collector: first Iterator", func(g, i int) {
+				sl := meet(i)
+				it := sl.ec.Iterator()
+				for k := 0; k < 8 && it.Next(bg); k++ {
+				}
+			}},
+			{"map: first Store", func(g, i int) { sl := meet(i); sl.m.Store(g, i) }},
+			{"map: first Load/Len", func(g, i int) { sl := meet(i); _, _ = sl.m.Load(g); _ = sl.m.Len() }},
+			{"map: first Get", func(g, i int) { sl := meet(i); _ = sl.m.Get(g % 2) }},
+			{"once: first Do", func(g, i int) { sl := meet(i); sl.once.Do(func() int { return i }) }},
+			{"once: first Resolve after Do", func(g, i int) { sl := meet(i); sl.once.Do(func() int { return i }); _ = sl.once.Resolve() }},
+			{"set: first Add", func(g, i int) { sl := meet(i); sl.set.Add(g) }},
+			{"set: first Check/Len", func(g, i int) { sl := meet(i); _ = sl.set.Check(g); _ = sl.set.Len() }},
+			{"set: first Iterator", func(g, i int) {
+				sl := meet(i)
+				it := sl.set.Iterator()
+				for k := 0; k < 8 && it.Next(bg); k++ {
+				}
+				_ = it.Close()
+			}},
+			{"limit: Future.Limit(2) fresh x2", func(g, i int) { sl := meet(i); _ = sl.futLim(); _ = sl.futLim() }},
+			{"limit: Worker.Limit(2) fresh x2", func(g, i int) { sl := meet(i); _ = sl.wrkLim(bg); _ = sl.wrkLim(bg) }},
+			{"limit: Producer.Limit(2) fresh x2", func(g, i int) { sl := meet(i); _, _ = sl.prdLim(bg); _, _ = sl.prdLim(bg) }},
+			{"oncewrap: Producer.Once fresh", func(g, i int) { sl := meet(i); _, _ = sl.prdOnce(bg); _ = guardedRead(&sl.st[3]) }},
+			{"oncewrap: Worker.Once fresh", func(g, i int) { sl := meet(i); _ = sl.wrkOnce(bg); _ = guardedRead(&sl.st[4]) }},
+		}, func() {}
+	}})
 	return subs
+}
+
+func c13Group(name string) string {
+	if k := strings.IndexByte(name, ':'); k >= 0 {
+		return name[:k]
+	}
+	return name
 }
 
 func runC13(r *kit.Run) {
@@ -518,6 +607,9 @@ func runC13(r *kit.Run) {
 		for a := 0; a < nd; a++ {
 			for b := a; b < nd; b++ {
 				if selfOnly && a != b {
+					continue
+				}
+				if sub.name == "first-use" && c13Group(drivers[a].name) != c13Group(drivers[b].name) {
 					continue
 				}
 				for rep := 0; rep < reps; rep++ {
